@@ -34,6 +34,8 @@ Definition creation_fee (k : kind) (limit : N) : N := tiers limit * price_per_10
 Definition upgrade_fee (k : kind) (old new : N) : N :=
   if tiers old <? tiers new then (tiers new - tiers old) * price_per_1000 k else 0.
 
+Definition nlen {A} (l : list A) : N := N.of_nat (length l).
+
 (* Vec<String>::sort_unstable(); dedup() *)
 Fixpoint ins (a : N) (l : list N) : list N :=
   match l with
